@@ -445,6 +445,49 @@ def _ob_set_range(an: int, bn: int) -> bool:
     return got is not None and got[0] == want[0] and got[1] == want[1]
 
 
+# ---------------------------------------------------------------------------
+# IEEE-754 round trip for non-dyadic intervals (engine E3, vf.smt_fp)
+#   PART = (sampling interval, offset, mode name, N)
+# ---------------------------------------------------------------------------
+def _ob_ieee_roundtrip(i: int) -> bool:
+    """
+    pre: 0 <= i
+    post: __return__
+    """
+    from nixio.dimensions import SampledDimension, IndexMode
+    si, off, mode, N = PART
+    assume(i <= N)
+    d = SampledDimension.__new__(SampledDimension)
+    d._h5group = _G({"sampling_interval": si, "offset": off if off else None})
+    pos = d.position_at(i)
+    try:
+        got = d.index_of(pos, getattr(IndexMode, mode))
+    except IndexError:
+        return mode == "Less" and i == 0
+    if mode == "Less":
+        return i > 0 and got == i - 1
+    return got == i
+
+
+def _custom_ieee():
+    import os
+    from vf import smt_fp
+    si, off, mode, N = PART
+    r = smt_fp.decide(os.environ.get("VERIF_REPO", "/repo"), si, off, mode, N)
+    r["bounds"] = ["0 <= i <= %d" % N, "sampling_interval == %r (IEEE double)" % si,
+                   "offset == %r (IEEE double)" % off, "mode == %s" % mode]
+    r["asserts"] = ["index_of(position_at(i), mode) == i (i - 1 for Less; IndexError iff Less and i == 0), "
+                    "evaluated in IEEE-754 binary64 with round-to-nearest-even"]
+    if r.get("status") == "violated":
+        r["counterexample"] = {"i": r["i"]}
+    return r
+
+
+def _replay_ieee(args):
+    ok = _ob_ieee_roundtrip(**args)
+    return (not ok), {"real_float_run_holds": ok, "PART": list(PART)}
+
+
 def _ob_slice_mode(which: bool) -> bool:
     """
     post: __return__
@@ -649,6 +692,10 @@ def validate():
     finally:
         D.np = real_np
     out["lattice_points_float_vs_Q"] = n
+    import os
+    from vf import smt_fp
+    out["fp_encoding_vs_real_index_of"] = smt_fp.validate(os.environ.get("VERIF_REPO", "/repo"),
+                                                          [(0.1, 0.0), (0.3, 0.7), (0.001, 0.0)])
     return out
 
 
@@ -697,6 +744,16 @@ OBLIGATIONS = [
     Ob("set_range_indices", _ob_set_range, timeout=300,
        partition=[(m, L) for m in SM for L in (0, 1, 2, 4)],
        functions=[_T + "range_indices", _T + "index_of"], replay=_replay_set_range),
+    Ob("sampled_roundtrip_ieee754", _ob_ieee_roundtrip, timeout=900, custom=_custom_ieee, twin=False,
+       partition_by_tier={
+           "quick": [(si, off, m, 4096) for si, off in ((0.1, 0.0), (0.001, 0.0), (0.3, 0.7))
+                     for m in ("LessOrEqual", "GreaterOrEqual", "Less")],
+           "thorough": [(si, off, m, 65536) for si, off in ((0.1, 0.0), (0.001, 0.0), (0.3, 0.7), (0.1, -1.3),
+                                                            (2.5e-05, 0.0), (1.0 / 3.0, 0.25))
+                        for m in ("LessOrEqual", "GreaterOrEqual", "Less")]},
+       functions=[_S + "position_at", _S + "index_of"], replay=_replay_ieee,
+       outside="other interval / offset pairs than the listed concrete doubles; sample numbers above "
+               "N; positions that are not exactly position_at(i)"),
     Ob("slice_mode_mapping", _ob_slice_mode, timeout=30,
        functions=["nixio.dimensions.SliceMode.to_index_mode"]),
 ]
